@@ -117,45 +117,108 @@ Fixpoint flat_args (fuel : nat) (s : list byte) (sep : byte) (arr : list byte) (
 Definition flat_array_message (s : list byte) (sep : byte) : nat * list byte :=
   flat_args (S (length s)) s sep [] 0.
 
-(* ---------------------------------------------------------------- histories on the flat string *)
-(* spec state: the remaining text, and whether the message has no part at all
-   (mpt_memcpy documents nothing for a zero part count and returns 0) *)
-Definition sstate := (list byte * bool)%type.
-Definition abs (F : list frag) : sstate := (concat F, match F with [] => true | _ => false end).
+(* appending to an array that may refuse (typed buffer, no memory): all of the text or
+   nothing.  [refused] is consulted only where the interface allows both outcomes. *)
+Definition flat_append_lim (arr s : list byte) (lim : option nat) (refused : bool) : out :=
+  let refuse := match s, lim with
+                | [], _ => false             (* nothing to append: never asks the array *)
+                | _, None => false           (* the array takes everything *)
+                | _, Some 0 => true          (* the array takes nothing (typed buffer) *)
+                | _, Some _ => refused       (* some allocation in between failed *)
+                end in
+  if refuse then OArrE MissingBuffer arr else OArr 0 (flat_append arr s).
 
-(* [hint] is the model's output: consulted only by OpGet, where the interface
-   allows refusing (no second vector given) and reports how many parts it used *)
-Definition sstep (st : sstate) (o : op) (hint : out) : sstate * out :=
-  let '(s, nop) := st in
+(* argument array built with an array that refuses after [lim] calls: one call for the
+   reservation, one per non-empty argument, one per terminating NUL *)
+Fixpoint flat_args_lim (fuel : nat) (s : list byte) (sep : byte) (arr : list byte) (n : nat) (lim : option nat)
+  : res (nat * list byte) :=
+  match fuel with
+  | 0 => Ok (n, arr)
+  | S fu =>
+    match flat_argv s sep with
+    | (Ok len, t) =>
+      if (len =? 0) && negb (sep =? 0)%N then Ok (n, arr)
+      else match (if len =? 0 then Some lim else lim_take lim) with
+           | None => Err MissingBuffer
+           | Some l1 =>
+             match lim_take l1 with
+             | None => Err MissingBuffer
+             | Some l2 => flat_args_lim fu (skipn (S len) t) sep (arr ++ firstn len t ++ [0%N]) (S n) l2
+             end
+           end
+    | _ => Ok (n, arr)
+    end
+  end.
+Definition flat_array_message_lim (s : list byte) (sep : byte) (lim : option nat) (pre : list byte) : out :=
+  match s with
+  | [] => OArr 0 []
+  | _ => match lim_take lim with
+         | None => OArrE BadOperation pre
+         | Some l1 => match flat_args_lim (S (length s)) s sep [] 0 l1 with
+                      | Ok (n, a) => OArr n a
+                      | Err e => OArrE e pre
+                      | Fault => OFault
+                      end
+         end
+  end.
+
+(* last position of a byte accepted by the search, in the string  <big bytes> ++ s  when
+   the byte is found inside s: representable as ssize_t or EOVERFLOW *)
+Definition rkind_pred (k : rkind) : option (byte -> bool) :=
+  match k with
+  | RChr b => Some (N.eqb b)
+  | RFcn n => Some (fcn_of n)
+  | RStr [] => None
+  | RStr set => Some (fun c => in_set c set)
+  end.
+Definition flat_rbig (big : N) (s : list byte) (k : rkind) : rpos :=
+  match (match rkind_pred k with Some p => flat_rfind p s | None => None end) with
+  | None => RSkip
+  | Some p => if (big + N.of_nat p <=? ssize_max)%N then RAt (big + N.of_nat p) else ROverflow
+  end.
+
+(* ---------------------------------------------------------------- histories on the flat string *)
+(* spec state: the remaining text *)
+Definition sstate := list byte.
+Definition abs (F : list frag) : sstate := concat F.
+
+(* [hint] is the model's output: consulted only where the interface allows refusing:
+   OpGet (no second vector given; it also reports how many parts it used) and OpAppL
+   (an allocation in the middle failed) *)
+Definition sstep (s : sstate) (o : op) (hint : out) : sstate * out :=
   match o with
   | OpSet F' => (abs F', ONat (length F'))
   | OpRead n dest =>
-    let '(t, d, r) := flat_read s n in ((r, false), ORead t (if dest then Some d else None))
-  | OpLen => (st, ONat (length s))
-  | OpArgv sep => let '(r, t) := flat_argv s sep in ((t, false), OArgv r)
-  | OpChr false b => (st, OPos (flat_memchr s b))
-  | OpChr true b => (st, OPos (flat_memrchr s b))
-  | OpFcn false k => (st, OPos (flat_find (fcn_of k) s))
-  | OpFcn true k => (st, OPos (flat_rfind (fcn_of k) s))
-  | OpStr false set => (st, OPos (flat_memstr s set))
-  | OpStr true set => (st, OPos (flat_memrstr s set))
-  | OpTok t c e => (st, OPos (flat_memtok s t c e))
-  | OpCpy len dest =>
-    if nop || (match dest with [] => true | _ => false end) then (st, OCpy 0%Z (concat dest))
-    else let '(r, d) := flat_memcpy len s (concat dest) in (st, OCpy r d)
-  | OpApp pre => (st, OArr 0 (flat_append pre s))
+    let '(t, d, r) := flat_read s n in (r, ORead t (if dest then Some d else None))
+  | OpLen => (s, ONat (length s))
+  | OpArgv sep => let '(r, t) := flat_argv s sep in (t, OArgv r)
+  | OpChr false b => (s, OPos (flat_memchr s b))
+  | OpChr true b => (s, OPos (flat_memrchr s b))
+  | OpFcn false k => (s, OPos (flat_find (fcn_of k) s))
+  | OpFcn true k => (s, OPos (flat_rfind (fcn_of k) s))
+  | OpStr false set => (s, OPos (flat_memstr s set))
+  | OpStr true set => (s, OPos (flat_memrstr s set))
+  | OpTok t c e => (s, OPos (flat_memtok s t c e))
+  | OpCpy len dest => let '(r, d) := flat_memcpy len s (concat dest) in (s, OCpy r d)
+  | OpApp pre => (s, OArr 0 (flat_append pre s))
   | OpGet q off take vec =>
     match flat_get (ring_contents q) off take with
     | Ok w =>
       match hint with
-      | OGet (Err EInval) => if vec then ((w, false), OGet (Ok 0)) else (st, OGet (Err EInval))
-      | OGet (Ok k) => ((w, false), OGet (Ok k))
-      | _ => ((w, false), OGet (Ok 0))
+      | OGet (Err EInval) => if vec then (w, OGet (Ok 0)) else (s, OGet (Err EInval))
+      | OGet (Ok k) => (w, OGet (Ok k))
+      | _ => (w, OGet (Ok 0))
       end
-    | Err e => (st, OGet (Err e))
-    | Fault => (st, OFault)
+    | Err e => (s, OGet (Err e))
+    | Fault => (s, OFault)
     end
-  | OpAmsg sep => let '(n, a) := flat_array_message s sep in (st, OArr n a)
+  | OpAmsg sep => let '(n, a) := flat_array_message s sep in (s, OArr n a)
+  | OpAppL pre lim =>
+    (s, flat_append_lim pre s lim (match hint with OArrE _ _ => true | _ => false end))
+  | OpAmsgL sep lim pre => (s, flat_array_message_lim s sep lim pre)
+  | OpAmsgNull => (s, OArr 0 [])
+  | OpNullArg which => (s, if m_nullarg which then OPosE else OPos (Some 0))
+  | OpRBig big k => (s, ORBig (flat_rbig big s k))
   end.
 
 (* run model and spec side by side (the spec gets the model's output as hint) *)
@@ -165,5 +228,5 @@ Fixpoint srun (F : list frag) (st : sstate) (ops : list op) : list (out * list b
   | o :: r =>
     let '(F', x) := mstep F o in
     let '(st', y) := sstep st o x in
-    (y, fst st') :: srun F' st' r
+    (y, st') :: srun F' st' r
   end.
